@@ -39,6 +39,11 @@ func Valid(data []byte) (ok bool, start int) {
 	return ok, 0
 }
 
+// ValidStrict is Valid: encoding/json.Valid checks the contents of string literals already.
+func ValidStrict(data []byte) (ok bool, start int) {
+	return Valid(data)
+}
+
 var typeByte = rt.UnpackEface(byte(0)).Type
 
 func Quote(e []byte, s string, double bool) []byte {
